@@ -224,7 +224,11 @@ class Result:
             json.dump(ev, f, indent=1, sort_keys=True)
         os.replace(tmp, os.path.join(EVIDENCE_DIR, self.prop + ".json"))
         if new:
+            seen = set()
             for v in new:
+                if v["key"] in seen:
+                    continue
+                seen.add(v["key"])
                 print("VIOLATION property=%s replay=%s" %
                       (self.prop, v["replay"]), flush=True)
                 print("  what: %s [key=%s]" % (v["what"], v["key"]), flush=True)
